@@ -59,6 +59,7 @@ type Config struct {
 	Pin          map[string]uint64 // concrete values for nondeterministic inputs (validation mode)
 	SampleEvery  int // keep a model for cross-validation every N completed paths
 	Seed         int
+	NoSchedPkgs  []string // synchronisation calls made by functions of these packages are not scheduling points
 	NoElide      bool // disable elision of logging-only branches
 	Stubs        map[string]string // function name -> "zero": body replaced by returning zero values (listed in evidence)
 }
@@ -132,6 +133,8 @@ type Result struct {
 	UnknownBranch int
 	Queries       int
 	SolverTime    time.Duration
+	ModelTime     time.Duration
+	Models        int
 	SolverErrors  int
 	LastSolverErr string
 	Violations    []Violation
@@ -230,6 +233,8 @@ func (x *Explorer) worker() {
 		x.mu.Lock()
 		x.res.Queries += solver.Queries
 		x.res.SolverTime += solver.Time
+		x.res.ModelTime += solver.ModelTime
+		x.res.Models += solver.Models
 		x.res.SolverErrors += solver.Errors
 		if solver.LastErr != "" {
 			x.res.LastSolverErr = solver.LastErr
@@ -268,6 +273,9 @@ func (x *Explorer) worker() {
 		x.runPath(solver, prefix)
 
 		x.mu.Lock()
+		if os.Getenv("GOSMT_PROGRESS") != "" && x.npaths%100 == 0 {
+			fmt.Fprintf(os.Stderr, "progress: started=%d done=%d infeasible=%d queue=%d violations=%d\n", x.npaths, x.res.Paths, x.res.Infeasible, len(x.work), len(x.res.Violations))
+		}
 		x.active--
 		x.mu.Unlock()
 		x.cond.Broadcast()
@@ -335,6 +343,16 @@ func (x *Explorer) runPath(solver *smt.Solver, prefix []Decision) {
 		in.call(nil, token.NoPos, x.entry, nil)
 	}()
 
+	if outcome == "done" || outcome == "PANIC" {
+		func() {
+			defer func() {
+				if p := recover(); p != nil {
+					outcome, msg = "UNSUPPORTED", fmt.Sprint("while discharging obligations: ", p)
+				}
+			}()
+			in.dischargePending()
+		}()
+	}
 	var viol *Violation
 	if outcome == "PANIC" {
 		// an uncaught panic on a feasible path is reported like a failed assertion
@@ -370,6 +388,12 @@ func (x *Explorer) runPath(solver *smt.Solver, prefix []Decision) {
 	}
 	for _, g := range in.skippedGo {
 		x.skipGo[g] = true
+	}
+	if f := os.Getenv("GOSMT_PATHS"); f != "" {
+		if fh, err := os.OpenFile(f, os.O_APPEND|os.O_CREATE|os.O_WRONLY, 0o644); err == nil {
+			fmt.Fprintf(fh, "%s %s sched=%v\n", outcome, decString(in.trace), in.schedLog)
+			fh.Close()
+		}
 	}
 	switch outcome {
 	case "done":
@@ -447,6 +471,9 @@ func (in *interp) addPC(t *smt.Term) {
 		}
 	}
 	in.pc = append(in.pc, t)
+	if in.model != nil && smt.Eval(t, in.model, map[int]uint64{}) == 0 {
+		in.model = nil
+	}
 	in.solver.Assert(t)
 }
 
@@ -493,6 +520,33 @@ func (in *interp) decide(c *smt.Term) bool {
 		return d.Taken
 	}
 	in.budget()
+	if in.ensureModel() {
+		// model-guided: the side the current model takes is feasible for free
+		b := smt.Eval(c, in.model, map[int]uint64{}) != 0
+		other := nc
+		if !b {
+			other = c
+		}
+		rO := in.checkWith(other)
+		if rO == smt.Unknown {
+			in.x.mu.Lock()
+			in.x.res.UnknownBranch++
+			in.x.mu.Unlock()
+		}
+		if rO != smt.Unsat {
+			alt := append(append([]Decision(nil), in.trace...), Decision{Kind: 'b', Taken: !b})
+			in.x.push(alt)
+		}
+		in.trace = append(in.trace, Decision{Kind: 'b', Taken: b})
+		in.pos = len(in.trace)
+		in.prefix = in.trace
+		if b {
+			in.addPC(c)
+		} else {
+			in.addPC(nc)
+		}
+		return b
+	}
 	rT := in.checkWith(c)
 	var rF smt.Result
 	if rT == smt.Unsat {
@@ -523,6 +577,22 @@ func (in *interp) decide(c *smt.Term) bool {
 		in.addPC(nc)
 	}
 	return take
+}
+
+// ensureModel makes in.model a model of the current path condition if possible.
+func (in *interp) ensureModel() bool {
+	if in.model != nil {
+		return true
+	}
+	r := in.solver.Check()
+	if r == smt.Unsat {
+		panic(abortPath{"INFEASIBLE", "path condition unsatisfiable"})
+	}
+	if r != smt.Sat {
+		return false
+	}
+	in.model = in.solver.Model(in.ctx.Vars)
+	return true
 }
 
 // choose picks one of n alternatives; every alternative is explored.
@@ -579,14 +649,10 @@ func (in *interp) enumerate(s *Sym) value {
 			continue
 		}
 		in.budget()
-		in.solver.Define(s.T)
-		if r := in.solver.Check(); r != smt.Sat {
-			if r == smt.Unsat {
-				panic(abortPath{"INFEASIBLE", "enumeration exhausted"})
-			}
+		if !in.ensureModel() {
 			unsupported("solver returned unknown while enumerating a symbolic value")
 		}
-		val := in.solver.ValueOf(s.T)
+		val := smt.Eval(s.T, in.model, map[int]uint64{})
 		alt := append(append([]Decision(nil), in.trace...), Decision{Kind: 'e', Taken: false, Val: val})
 		in.x.push(alt)
 		in.trace = append(in.trace, Decision{Kind: 'e', Taken: true, Val: val})
@@ -606,9 +672,13 @@ func (in *interp) assume(c value) {
 		}
 	case *Sym:
 		in.addPC(c.T)
-		if in.pos >= len(in.prefix) {
-			if in.solver.Check() == smt.Unsat {
+		if in.pos >= len(in.prefix) && in.model == nil {
+			r := in.solver.Check()
+			if r == smt.Unsat {
 				panic(abortPath{"INFEASIBLE", "assumption unsatisfiable"})
+			}
+			if r == smt.Sat {
+				in.model = in.solver.Model(in.ctx.Vars)
 			}
 		}
 	case poison:
@@ -616,49 +686,87 @@ func (in *interp) assume(c value) {
 	}
 }
 
-// assert checks c under the current path condition.
+// assertCond records an obligation. Symbolic conditions are discharged at the end
+// of the path under the full path condition (every extension of this point is
+// some path, so all inputs reaching the assertion are covered); concretely false
+// conditions are reported at once.
 func (in *interp) assertCond(label string, c value) {
 	replaying := in.pos < len(in.prefix)
 	switch c := c.(type) {
 	case bool:
 		if c {
-			if !replaying {
-				in.asserts = append(in.asserts, assertRec{label, "trivial"})
-			}
+			in.asserts = append(in.asserts, assertRec{label, "trivial"})
 			return
 		}
 		if replaying {
 			return
 		}
-		// concretely false on a feasible path
 		in.asserts = append(in.asserts, assertRec{label, "violated"})
 		in.recordViolation(label, "assert", "")
 		panic(abortPath{"VIOLATED", "assertion " + label + " is false"})
 	case *Sym:
-		if replaying {
-			in.addPC(c.T)
-			return
-		}
-		r := in.checkWithModel(in.ctx.Not(c.T), label)
-		switch r {
-		case smt.Unsat:
-			in.asserts = append(in.asserts, assertRec{label, "discharged"})
-		case smt.Sat:
-			in.asserts = append(in.asserts, assertRec{label, "violated"})
-		default:
-			in.asserts = append(in.asserts, assertRec{label, "unknown"})
-		}
-		// continue under the assumption that the assertion holds
-		in.addPC(c.T)
-		if r != smt.Unsat {
-			if in.solver.Check() == smt.Unsat {
-				panic(abortPath{"VIOLATED", "assertion " + label + " always false here"})
-			}
-		}
+		in.pending = append(in.pending, pendingAssert{label, c.T, in.where()})
 	case poison:
 		unsupported("assert on a value that could not be computed symbolically (%s)", c.why)
 	default:
 		panic(fmt.Sprintf("assert: %T", c))
+	}
+}
+
+type pendingAssert struct {
+	label string
+	t     *smt.Term
+	where string
+}
+
+// dischargePending checks all recorded obligations under the final path condition.
+func (in *interp) dischargePending() {
+	if len(in.pending) == 0 {
+		return
+	}
+	var ts []*smt.Term
+	for _, p := range in.pending {
+		ts = append(ts, p.t)
+	}
+	all := in.ctx.And(ts...)
+	if all.IsTrue() {
+		for _, p := range in.pending {
+			in.asserts = append(in.asserts, assertRec{p.label, "trivial"})
+		}
+		return
+	}
+	r := in.checkWith(in.ctx.Not(all))
+	if r == smt.Unsat {
+		for _, p := range in.pending {
+			in.asserts = append(in.asserts, assertRec{p.label, "discharged"})
+		}
+		return
+	}
+	// some obligation fails (or the solver gave up): look at them one by one
+	for _, p := range in.pending {
+		if p.t.IsTrue() {
+			in.asserts = append(in.asserts, assertRec{p.label, "trivial"})
+			continue
+		}
+		neg := in.ctx.Not(p.t)
+		in.solver.Define(neg)
+		in.solver.Push()
+		in.solver.Assert(neg)
+		ri := in.solver.Check()
+		switch ri {
+		case smt.Unsat:
+			in.asserts = append(in.asserts, assertRec{p.label, "discharged"})
+		case smt.Sat:
+			in.asserts = append(in.asserts, assertRec{p.label, "violated"})
+			model := in.solver.Model(in.ctx.Vars)
+			v := Violation{Label: p.label, Kind: "assert", Model: model, Decisions: decString(in.trace), Sched: append([]int(nil), in.schedLog...), Where: p.where}
+			in.x.mu.Lock()
+			in.x.res.Violations = append(in.x.res.Violations, v)
+			in.x.mu.Unlock()
+		default:
+			in.asserts = append(in.asserts, assertRec{p.label, "unknown"})
+		}
+		in.solver.Pop()
 	}
 }
 
